@@ -4,14 +4,14 @@ import common
 import c08 as C8
 from common import cN, cZ, cnat, cbool, clist, copt, cpair
 
-PROOF_FILES = ['Proofs/NnxLift.v', 'Proofs/LinenLoop.v']
+PROOF_FILES = ['Proofs/NnxLift.v', 'Proofs/LinenLoop.v', 'Proofs/Axes.v']
 ASSUMPTIONS = [
     'lax.scan = fold over the iterations, jax.vmap = map over the index with batchedness tracked by dependency (idealised, not verified); unroll does not occur in the model',
     'an axis collection is represented by its slices along the declared axis: the transpose_to_front / moveaxis arithmetic of the code is tied to the model by the correspondence (non-square shapes)',
     'loop bodies are integer programs over the variables of one module (C08 body language); the collections ax0 / ax1 / ax2 / axm1 / bc / carry play the roles axis 0 / 1 / 2 / -1 / broadcast / carry',
     'keys are compared by equality pattern only (split: pairwise distinct per iteration, unsplit: identical)',
 ]
-HEADER = 'From Flaxm Require Import Lib.Harness Model.NnxFilters Model.NnxLift Model.LinenLoop.\nOpen Scope Z_scope.\n'
+HEADER = 'From Flaxm Require Import Lib.Harness Model.NnxFilters Model.NnxLift Model.LinenLoop Model.Axes.\nOpen Scope Z_scope.\n'
 
 
 def full_shape(slice_shape, spec, L):
@@ -118,6 +118,10 @@ def run(chk):
       if not (r['ys_ok'] and r['trace_ok'] and r['carry_ok']) or r['init_trace_shape'] != r['exp_trace_shape']:
         chk.violation('oracle', 'nn.scan differs from the Python loop with stacked outputs / variables when the scan axis is not leading '
                       '(in_axes=%s, out_axes=%s, variable_axes=%s on per-step shape %s)' % (d['in_axis'], d['out_axis'], d['var_axis'], d['shape']), {'case': d, 'observed': r})
+      # the shapes nn.scan produced against Model/Axes.v (L slices stacked along the declared axis)
+      nl = lambda xs: clist([cnat(v) for v in xs])
+      rows.append((d, o, '(list_beq Nat.eqb (stack_shape %s %s %s) %s && list_beq Nat.eqb (stack_shape %s %s %s) %s)' % (
+          cnat(d['length']), nl(d['shape']), cZ(d['out_axis']), nl(r['ys_shape']), cnat(d['length']), nl(d['shape']), cZ(d['var_axis']), nl(r['init_trace_shape']))))
       continue
     if d['kind'] == 'remat_scan':
       chk.count(d, len(d['lengths']) > 1)
